@@ -106,7 +106,7 @@ def iam_execs(rng, n):
                 u, key = rng.choice(keys) if keys and rng.random() < 0.95 else ("u1", "k99")
                 rt = first if first and i == 0 else rng.choice(IREQ_ROUTES)
                 b = "b3" if rt == "PutBucket" else "" if rt == "ListBuckets" else rng.choice(["b1", "b1", "b1x", "b2"])
-                res.append({"ev": "ireq", "route": rt, "bucket": b, "user": u, "key": key})
+                res.append({"ev": "ireq", "route": rt, "bucket": b, "user": u, "key": key, "sec": "cur"})
             return res
         def grant(u, pn="p1"):
             return op("PutUserPolicy", u, pname=pn, stmts=[{"eff": "Allow", "acts": rng.sample(MAPPED_ACTS, rng.choice([1, 2])),
@@ -118,7 +118,19 @@ def iam_execs(rng, n):
             keys.append((u, "k%d" % kc))
             return op("CreateAccessKey", u, key="k%d" % kc)
         shape = rng.random()
-        if shape < 0.40:
+        if shape < 0.12:
+            # the secret of a key that has been used is replaced (same access key id): requests signed with the old
+            # secret must be refused from then on, requests signed with the new one work
+            u = rng.choice(["u1", "u2"])
+            evs = [newkey(u), op("PutUserPolicy", u, pname="p1", stmts=[{"eff": "Allow", "acts": ["s3:*"], "res": ["arn:aws:s3:::*"]}])]
+            rng.shuffle(evs)
+            k = keys[0][1]
+            evs += [{"ev": "ireq", "route": rt, "bucket": "" if rt == "ListBuckets" else "b1", "user": u, "key": k, "sec": "cur"} for rt in ("ListBuckets", "PutObject")]
+            evs.append(op("RotateSecret", u, key=k))
+            for rt in rng.sample(["ListBuckets", "PutObject", "GetObject", "DeleteObject"], 3):
+                evs.append({"ev": "ireq", "route": rt, "bucket": "" if rt == "ListBuckets" else "b1", "user": u, "key": k, "sec": "old"})
+            evs.append({"ev": "ireq", "route": "PutObject", "bucket": "b1", "user": u, "key": k, "sec": "cur"})
+        elif shape < 0.40:
             # free form
             evs = [step() for _ in range(rng.randint(2, 5))]
             if not keys:
